@@ -39,7 +39,10 @@ def check_program(ctx, line, sp, events, profile, stage):
         # |x|^2 is not complex-differentiable; ODL documents the "C = R^2" convention for such maps.
         ctx.extra['complex_nonholomorphic_programs_skipped'] = ctx.extra.get('complex_nonholomorphic_programs_skipped', 0) + 1
         return
-    op = U.build(e, sp)
+    try:
+        op = U.build(e, sp)
+    except Exception:
+        return          # an expression the library cannot build is C04's business
     nontriv = U.has_nonlinear_leaf(e) and U.n_comb(e) >= 1
     if line['lin']:
         pairs = [(line['pts'][0], line['pts'][-1], None)]
